@@ -58,6 +58,7 @@ func cmdUnit(args []string) {
 	timeout := fs.Int("t", 10000, "timeout ms")
 	keep := fs.String("keep", "", "directory for failed queries")
 	lock := fs.Bool("lock", false, "lock discipline obligations")
+	seq := fs.Bool("seq", false, "sequential mode (no havoc at Lock)")
 	nocache := fs.Bool("nocache", false, "disable cache")
 	dump := fs.String("dump", "", "dump scripts of obligations whose name contains this")
 	fs.Parse(args)
@@ -92,7 +93,7 @@ func cmdUnit(args []string) {
 				os.Exit(2)
 			}
 			t1 := time.Now()
-			u := verifyUnit(env, k, fn, UnitOpts{LockMode: *lock})
+			u := verifyUnit(env, k, fn, UnitOpts{LockMode: *lock, Sequential: *seq})
 			fmt.Printf("== %s: %d obligations, %d assumptions, generated in %v\n", k, len(u.Obligs), len(u.Assumes), time.Since(t1))
 			units = append(units, u)
 		}
